@@ -140,6 +140,50 @@ def delayed_work(job):
     return rec
 
 
+# snapshot taken while delayed events are just becoming due (the timer thread fires during serialize()): each must arrive exactly once after
+# the resume - whether the snapshot caught it in the delay queue or already in the external queue
+DUE = '''<scxml xmlns="http://www.w3.org/2005/07/scxml" version="1.0" datamodel="%(dm)s">
+<state id="a"><onentry>%(sends)s</onentry><transition event="dly"/></state></scxml>'''
+
+
+def due_work(job):
+    binary, cid, dm, eng, d, offs, wait = job
+    xml = DUE % {'dm': dm, 'sends': ''.join('<send event="dly.%d" delay="%dms"/>' % (i, d + o) for i, o in enumerate(offs))}
+    raw = T.run_jobs(binary, [(cid, T.job_text(cid, eng, xml, [], flags=['drain', 'novars', 'lateresume', 'snapwait:%d' % wait], snap=1))], timeout_per_job=60)
+    r = raw[cid]
+    lines = [l for l in r['lines'] if l and not l.startswith('[')]
+    a_after, b, info = split_at_snapshot(lines)
+    ev = lambda x: sorted(l.split(' ')[1] for l in x if l.startswith('E dly.'))
+    sa, sb = ev(a_after), ev(b)
+    want = sorted('dly.%d' % i for i in range(len(offs)))
+    rec = {'id': cid, 'v': 'ok', 'compared': len(sa)}
+    rep = {'xml': xml, 'history': [], 'engine': eng, 'datamodel': dm, 'snapshot_at_stable_point': 1, 'snapshot_ms_after_start': wait, 'original_after_snapshot': sa, 'resumed': sb, 'state': info.get('ser', '')[:1500]}
+    if r['timeout']:
+        rec['v'] = 'bad'; rec['k'] = 'serialize-while-timers-fire:hang'; rep['stderr'] = r.get('stderr'); rec['replay'] = rep
+    elif r['crash']:
+        rec['v'] = 'bad'; rec['k'] = 'serialize-while-timers-fire:crash:' + str(r['crash'])[:60]; rep['stderr'] = r.get('stderr'); rec['replay'] = rep
+    elif sa != want:
+        rec['v'] = 'skip'       # the original itself processed some of them before the snapshot point (machine too slow): nothing to compare
+    elif sb != want:
+        rec['v'] = 'bad'; rec['k'] = 'pending-delayed-events-lost:snapshot-while-due' if len(sb) < len(want) else 'pending-delayed-events-duplicated:snapshot-while-due'; rec['replay'] = rep
+    return rec
+
+
+def due_part(chk, binary, n):
+    rng = chk.rng
+    jobs = []
+    for i in range(n):
+        d = rng.randint(25, 60)
+        jobs.append((binary, 'du%d' % i, ('lua', 'promela', 'null')[i % 3], ('large', 'fast')[(i // 3) % 2], d, [-4, -2, -1, 0, 0, 1, 2, 4], d - rng.randint(0, 2)))
+    ok = 0
+    for rec in common.pmap(due_work, jobs, workers=max(2, common.NPROC // 2)):
+        chk.count()
+        if rec['v'] == 'bad': chk.report(rec['k'], rec['replay'], '%s %s' % (rec['id'], rec['k']))
+        elif rec['v'] == 'ok': ok += 1; chk.nontrivial('due:' + rec['id'])
+    chk.add('snapshots_while_timers_fire', n); chk.add('snapshots_while_timers_fire_compared', ok)
+    if ok < n // 3: chk.inconc('only %d of %d snapshot-while-due runs were comparable' % (ok, n))
+
+
 def delayed_part(chk, binary, n):
     rng = chk.rng
     jobs = [(binary, 'dl%d' % i, ('lua', 'promela')[(i // 2) % 2], ('large', 'fast')[(i // 4) % 2], rng.randint(350, 600), rng.randint(700, 900), 1 + i % 2) for i in range(n)]
@@ -180,6 +224,7 @@ def main(tier, replay):
             elif len(chk.samples) < 4 and rec.get('compared', 0) > 10:
                 chk.sample({'case': rec['id'], 'records_compared_after_resume': rec['compared']})
     delayed_part(chk, binary, 16 if tier == 'quick' else 200)
+    due_part(chk, binary, 60 if tier == 'quick' else 1500)
     chk.add('verdicts', dict(verd)); chk.add('records_compared_after_resume', compared)
     chk.rule = ('each round trip = (document, history, engine, stable point k): serialize() at the k-th stable point (all k up to 7, with 0-2 external events still queued), deserialize() into a fresh interpreter for the '
                 'same document, drive both with the same continuation and compare every callback/log record from the first processed event on plus final configuration and data; one extra job per document checks that a '
